@@ -4,7 +4,13 @@ package c15
 // spec 0.29 section 4.10 "Tables (extension)" (and cmark-gfm's behaviour for escapes):
 //   - a table is a header row, a delimiter row and zero or more data rows;
 //   - cells are separated by pipes; a leading and a trailing pipe are optional; spaces between
-//     pipes and cell content are trimmed; a pipe inside a cell is written `\|`;
+//     pipes and cell content are trimmed; a pipe inside a cell is written `\|` ("It is possible to
+//     include a pipe in a cell's content by escaping it, including inside other inline spans"):
+//     the escape is a pass of its own in front of inline parsing — a pipe that directly follows a
+//     backslash never separates cells and the pair stands for the pipe (cmark-gfm unescape_pipes,
+//     markdown-it escapedSplit); no other backslash means anything at this level: `\\|` is a
+//     backslash followed by a literal pipe, `a\` at the end of a cell is the text `a\`. Inline
+//     Markdown inside a cell is not interpreted (the read-back is the raw cell source);
 //   - "the header row must match the delimiter row in the number of cells. If not, a table will
 //     not be recognized";
 //   - the delimiter row's cells consist of hyphens with an optional leading/trailing colon;
@@ -38,18 +44,14 @@ func GFMSplitRow(line string) []string {
 	var cur []byte
 	for i := 0; i < len(s); i++ {
 		switch {
-		case s[i] == '\\' && i+1 < len(s):
-			if s[i+1] == '|' {
-				cur = append(cur, '|')
-			} else {
-				cur = append(cur, '\\', s[i+1])
-			}
+		case s[i] == '\\' && i+1 < len(s) && s[i+1] == '|':
+			cur = append(cur, '|') // escaped pipe: part of the cell
 			i++
 		case s[i] == '|':
 			cells = append(cells, trimASCII(string(cur)))
 			cur = cur[:0]
 		default:
-			cur = append(cur, s[i])
+			cur = append(cur, s[i]) // any other byte, a backslash too, is cell text
 		}
 	}
 	// what follows the last pipe is a cell unless it is empty (the trailing pipe was the optional one)
